@@ -322,6 +322,7 @@ func parseGroup(mp *msgParser, tags []Tag) {
 			return
 		}
 		mp.parsedFieldBytes = &mp.msg.fields[mp.fieldIndex]
+		bytesBeforeField := mp.rawBytes
 		mp.rawBytes, _ = extractField(mp.parsedFieldBytes, mp.rawBytes)
 		mp.trailerBytes = mp.rawBytes
 
@@ -338,11 +339,13 @@ func parseGroup(mp *msgParser, tags []Tag) {
 			dm = append(dm, *mp.parsedFieldBytes)
 		} else if isHeaderField(mp.parsedFieldBytes.tag, mp.transportDataDictionary) {
 			// Found a header tag for some reason..
+			mp.trailerBytes = bytesBeforeField
 			mp.msg.Body.add(dm)
 			mp.msg.Header.add(mp.msg.fields[mp.fieldIndex : mp.fieldIndex+1])
 			break
 		} else if isTrailerField(mp.parsedFieldBytes.tag, mp.transportDataDictionary) {
-			// Found the trailer at the end of the message.
+			// Found the trailer at the end of the message: the body ends before this field.
+			mp.trailerBytes = bytesBeforeField
 			mp.msg.Body.add(dm)
 			mp.msg.Trailer.add(mp.msg.fields[mp.fieldIndex : mp.fieldIndex+1])
 			mp.foundTrailer = true
